@@ -81,7 +81,6 @@ func c16RandDoc(rnd *rand.Rand, fmtName string, blocks int) wpw.Doc {
 	noTbl := wpw.Tbl{Hm: [][]int{}, Vm: [][]int{}, Mp: [][]int{}, Rc: [][]int{}}
 	// a random style sheet: an arbitrary basedOn graph (chains, shared parents, cycles,
 	// undefined parents) satisfying WordDoc!SheetOK
-	odtLvl := 1 + rnd.Intn(9)
 	if rnd.Intn(2) == 0 {
 		n := 1 + rnd.Intn(5)
 		decls := []string{"none", "none", "builtin", "nameL", "nameU", "outline"}
@@ -91,9 +90,6 @@ func c16RandDoc(rnd *rand.Rand, fmtName string, blocks int) wpw.Doc {
 		usedLvl := map[int]bool{}
 		for i := 0; i < n; i++ {
 			st := wpw.Style{Decl: decls[rnd.Intn(len(decls))], Lvl: 1 + rnd.Intn(9)}
-			if fmtName == "odt" {
-				st.Lvl = odtLvl
-			}
 			if st.Decl == "builtin" || st.Decl == "nameL" || st.Decl == "nameU" || st.Decl == "bare" {
 				if usedLvl[st.Lvl] {
 					st.Decl = "none"
@@ -101,12 +97,20 @@ func c16RandDoc(rnd *rand.Rand, fmtName string, blocks int) wpw.Doc {
 				usedLvl[st.Lvl] = usedLvl[st.Lvl] || st.Decl != "none"
 			}
 			st.Based = []int{-2, -1, 0, 1 + rnd.Intn(n), 1 + rnd.Intn(n), 1 + rnd.Intn(n)}[rnd.Intn(6)]
+			st.Loc = "doc"
+			if fmtName == "odt" && st.Decl != "builtin" && st.Decl != "bare" && rnd.Intn(2) == 0 {
+				st.Loc = "auto"
+			}
 			d.Sheet = append(d.Sheet, st)
 		}
 	}
 	for len(d.Body) < blocks {
 		if len(d.Sheet) > 0 && rnd.Intn(4) == 0 {
-			d.Body = append(d.Body, wpw.Block{K: "S", Ch: c16RandChildren(rnd, fmtName, 2, 2), Lvl: odtLvl, Sty: 1 + rnd.Intn(len(d.Sheet)), Tb: noTbl})
+			how := ""
+			if fmtName == "odt" && rnd.Intn(3) == 0 {
+				how = "noattr"
+			}
+			d.Body = append(d.Body, wpw.Block{K: "S", Ch: c16RandChildren(rnd, fmtName, 2, 2), Lvl: 1 + rnd.Intn(9), How: how, Sty: 1 + rnd.Intn(len(d.Sheet)), Tb: noTbl})
 			continue
 		}
 		switch rnd.Intn(6) {
